@@ -8,6 +8,7 @@ import (
 	"flag"
 	"fmt"
 	"go/ast"
+	"go/types"
 	"os"
 	"runtime/debug"
 	"sort"
@@ -24,6 +25,7 @@ type Ctx struct {
 	Tier string
 	mod2 *ModAnalysis
 	pag  *paginatedRoles
+	live map[*types.Var]bool
 }
 
 type property struct {
